@@ -62,8 +62,8 @@ func freshLine(v ssa.Value) bool {
 // primitiveLineWrites finds every instruction in repo code that writes a core.Line in place.
 func (p *Prog) primitiveLineWrites() []PrimWrite {
 	var out []PrimWrite
-	for _, f := range p.RepoFuncs {
-		eachInstr(f, func(in ssa.Instruction) {
+	for _, f := range p.AllFuncs {
+		eachInstrRaw(f, func(in ssa.Instruction) {
 			switch x := in.(type) {
 			case *ssa.Store:
 				if isLinePtr(x.Addr.Type()) {
@@ -193,7 +193,7 @@ func (p *Prog) coreMutators(writes []PrimWrite) map[*ssa.Function]bool {
 	changed := true
 	for changed {
 		changed = false
-		for _, f := range p.RepoFuncs {
+		for _, f := range p.AllFuncs {
 			if mut[f] || !isCoreMethod(f) {
 				continue
 			}
